@@ -232,7 +232,9 @@ type postingParts struct {
 }
 
 func parsePosting(line string) postingParts {
-	trimmed := strings.TrimLeft(line, " \t")
+	// The account starts after the indent and a status mark; blanks between the mark and
+	// the account are not the separator in front of the amount.
+	trimmed := strings.TrimLeft(line, " \t*!")
 	indent := len(line) - len(trimmed)
 
 	parts := postingParts{
@@ -749,7 +751,7 @@ func extractQueryText(content string, pos protocol.Position, ctxType CompletionC
 		if after, found := strings.CutPrefix(beforeCursor, directiveCommodity); found {
 			return after
 		}
-		trimmed := strings.TrimLeft(beforeCursor, " \t")
+		trimmed := strings.TrimLeft(beforeCursor, " \t*!")
 		separatorIdx := findDoublespace(trimmed)
 		if separatorIdx == -1 {
 			return ""
